@@ -56,7 +56,7 @@ ALPHABET_QUICK = [97, 47, 63, 38, 61, 37, 35, 32, 43, 126, 229, 8364, 128512]
 # ... plus Z : @ ; [ 1 U+00C5
 ALPHABET_THOROUGH = ALPHABET_QUICK + [90, 58, 64, 59, 91, 49, 197]
 
-GEN_INVARIANTS = ["FixedPoint", "EscapesDenoteSegments", "EmitCases"]
+GEN_INVARIANTS = ["FixedPoint", "EscapesDenoteSegments", "LiteralReadingUnstable", "EmitCases"]
 PAIR_INVARIANTS = ["ComposeInjective", "TextUnambiguous"]
 
 
@@ -85,7 +85,7 @@ def gen_runs(tier):
             rich=2,
             basesegs=1,
             basebudget=1,
-            profiles=[1, 2, 3, 4, 5, 6],
+            profiles=[1, 2, 3, 4, 5, 6, 7],
         )
         deep = dict(
             schemes=["coap"],
@@ -110,7 +110,7 @@ def gen_runs(tier):
         rich=2,
         basesegs=1,
         basebudget=1,
-        profiles=[1, 2, 3, 4, 5, 6],
+        profiles=[1, 2, 3, 4, 5, 6, 7, 8],
     )
     deep = dict(
         schemes=["coap"],
@@ -235,13 +235,24 @@ def text_of(chars):
 
 def state_cases(v, all_variants):
     """One C16U value (= one state of the generator) -> its text cases and its option-set case."""
-    _, tx, aopts, anf, degenerate = v
+    _, tx, aopts, anf, degenerate, lits = v
     accept = [opt_from_tuple(t) for t in aopts]
     tx = [text_of(t) for t in tx]
     anf = [text_of(t) for t in anf]
+    if len(lits) != len(tx):
+        raise MachineryError("unexpected C16U value from TLC: %r" % (v,))
     tcases = []
     for n, text in enumerate(tx):
         c = {"kind": "text", "text": text, "accept": accept, "nf": anf, "degenerate": degenerate}
+        if lits[n]:
+            # second admissible Uri-Host (escaped upper-case letters left upper-case), the normal forms of
+            # that option set, and the Uri-Host TLC expects after composing and decomposing it
+            lhost, lnf, rehost = lits[n]
+            c["lit"] = {
+                "accept": [dict(o, host=_s(lhost)) for o in accept],
+                "nf": [text_of(t) for t in lnf],
+                "re": [dict(o, host=_s(rehost)) for o in accept],
+            }
         if not (all_variants or n in (0, len(tx) - 1)):
             c["novariant"] = 1  # quick tier: the set_uri_host=False variant only for the first and last profile
         tcases.append(c)
@@ -250,7 +261,9 @@ def state_cases(v, all_variants):
 
 
 def expectation_digest(c):
-    return hashlib.sha1(repr(([opt_key(o) for o in c["accept"]], c["nf"])).encode()).hexdigest()[:16]
+    lit = c.get("lit")
+    lit = lit and ([opt_key(o) for o in lit["accept"]], lit["nf"], [opt_key(o) for o in lit["re"]])
+    return hashlib.sha1(repr(([opt_key(o) for o in c["accept"]], c["nf"], lit)).encode()).hexdigest()[:16]
 
 
 def build_static(lines):
@@ -395,7 +408,14 @@ def eval_text(case):
     except Exception as e:
         out.append(_v("C16_Decompose", nf, "%r is a CoAP URI but decomposing it raised %s" % (text, _exc(e)), case))
         return out, None
+    # which admissible reading did the implementation take?  (a host with "%41"-style escapes has two:
+    # the statement's all-lower-case Uri-Host, and 6.4 step 5 read literally); everything after is
+    # judged on the options the implementation actually produced
+    lit = case.get("lit")
+    re_accept = accept
     why = match_any(ob, accept)
+    if why is not None and lit is not None and match_any(ob, lit["accept"]) is None:
+        why, nfs, re_accept = None, lit["nf"], lit["re"]
     if why is not None:
         out.append(_v("C16_Decompose", nf, "%r: %s" % (text, why), case))
     try:
@@ -408,7 +428,7 @@ def eval_text(case):
         out.append(_v("C16_ComposeNormalForm", nf, "%r composes back to %r, expected %r" % (text, g, nfs[0]), case))
     elif g not in nfs[0::3] and g not in nfs[1::3]:
         drift = (text, g)  # accepted, but the model's generator would not write it: empty port left behind ":"
-    check_recompose(g, accept, ob, case, out, "from text %r" % text)
+    check_recompose(g, re_accept, ob, case, out, "from text %r" % text)
     # the same with the host kept out of the options (set_uri_host=False): the
     # URI composed from that message still has to decompose to the same options
     if case.get("novariant"):
@@ -418,7 +438,7 @@ def eval_text(case):
         m3.set_request_uri(text, set_uri_host=False)
         g3 = m3.get_request_uri()
         m4 = Message(code=GET, uri=g3)
-        why = match_any(observe(m4), accept)
+        why = match_any(observe(m4), accept + (lit["accept"] if lit else []))
         if why is not None:
             out.append(_v("C16_RecomposeStable", nf, "%r (set_uri_host=False) composes to %r which decomposes differently: %s" % (text, g3, why), case))
     except Exception as e:
@@ -539,8 +559,8 @@ def _eval_lines(job):
     try:
         for line in lines:
             tcases, ocase = state_cases(parse_line(line), all_variants)
-            dig = expectation_digest(tcases[0])
             for case in tcases:
+                dig = expectation_digest(case)
                 vs, drift = eval_text(case)
                 viols.extend(vs)
                 index.append((case["text"], dig))
@@ -752,7 +772,7 @@ def work(rep, args):
             "generator_runs": per_run,
             "pair_run": {"states": pair.distinct, "transitions": pair.generated, "depth": pair.depth, "constants": pc, "wall_s": round(pair.wall, 1)},
             "exhaustive": True,
-            "spec_invariants": ["TypeOK"] + GEN_INVARIANTS[:2] + PAIR_INVARIANTS,
+            "spec_invariants": ["TypeOK"] + GEN_INVARIANTS[:3] + PAIR_INVARIANTS,
             "structured_uris": nstates,
             "texts": len(text_exp),
             "option_sets": len(opt_nf),
@@ -771,7 +791,8 @@ def work(rep, args):
     )
     rep.assumptions += [
         "spec/CoapUri.tla is a transcribed reference (RFC 3986 serialisation, RFC 7252 6.4 / 6.5) evaluated by TLC; every comparison is a single-step one (no interleavings)",
-        "hosts are RFC 3986 reg-names, IPv4 and IPv6 literals from HostTab; IPvFuture, dot segments, percent-encoded upper-case letters in hosts and unescaped non-ASCII text are not generated",
+        "hosts are RFC 3986 reg-names, IPv4 and IPv6 literals from HostTab; IPvFuture, dot segments and unescaped non-ASCII text are not generated",
+        "a reg-name with percent-encoded upper-case letters ('h%4Fst') may decompose to the all-lower-case Uri-Host or to the one 6.4 step 5 gives literally; compose/decompose stability is judged on whichever the implementation produced",
         "a single empty query ('...?') and an empty userinfo / fragment delimiter are not judged (statement silent)",
         "a default port may be spelled out or omitted in the composed URI",
         "bounds: %d structured URIs; wide run: alphabet of %d code points, <= %d segment characters on the reference base, <= %d on the others; deep run: alphabet of %d, <= %d characters"
